@@ -153,3 +153,50 @@ def check_handover(case):
                  "tick period %s: frame f%d (`%s`, same original aux as the next frame) was left at tick %r, its clock reaches the "
                  "goal at tick %d (all frames: %r, expected %r)\n%s" % (P, k, line_of(conds[k]), seq[k], want[k], seq, want, text))]
     return []
+
+
+# ------------------------------------------------------------------ a slave framer started and run in the same tick
+def slave_script(cond, delay):
+    L = ["house h", "framer boss be active first b0", "frame b0"]
+    L.append("go next if recurred >= %d" % delay if delay else "go next")
+    L += ["frame b1", "start worker", "run worker", "framer worker be slave first w0", "frame w0", line_of(cond),
+          "frame w1", "print left"]
+    return "\n".join(L) + "\n"
+
+
+def check_slave(case):
+    """The usual master idiom: frame b1 of the master starts the slave on entry (`start worker`) and runs it on every
+    recur (`run worker`), so the slave's START and its first RUN share one tick. The slave's clocks restart when its
+    outline is entered by the START; its k-th RUN (k = 1 in the tick of the START) is its k-th evaluation with
+    recurred = k iterations completed and elapsed = (k - 1) tick periods. case: {"P", "cond", "delay"} -> failures"""
+    P, cond, delay = case["P"], case["cond"], case["delay"]
+    bound = 40
+    text = slave_script(cond, delay)
+    exp = None
+    for k in range(1, bound + 1):
+        if cond[0] == "timeout":
+            ok = (k - 1) * Fraction(P) >= Fraction(str(cond[1]))
+        else:
+            ok = k >= cond[1]
+        if ok:
+            exp = k
+            break
+    tr = run_text(text, delay + (exp or bound) + 4, period=P)
+    if tr["build"] != "True" or tr.get("exc"):
+        return [("slave-build:%s" % (tr.get("exc") or tr["build"]), "build %s %s\n%s" % (tr["build"], tr.get("detail"), text))]
+    t0 = t1 = None
+    for t, i, e in all_events(tr):
+        if e[0] == "f" and e[1] == "worker" and e[3] == "enter":
+            if e[2] == "w0" and t0 is None:
+                t0 = t
+            elif e[2] == "w1" and t1 is None:
+                t1 = t
+    if t0 is None:
+        return [("slave-never-started", "the slave never entered w0\n%s" % text)]
+    got = None if t1 is None else t1 - t0 + 1
+    if got != exp:
+        return [("slave-%s-%s" % (cond[0], "late" if got is None or (exp is not None and got > exp) else "early"),
+                 "tick period %s: slave started and first run in tick %d; `%s` in its first frame holds first at its run number %r "
+                 "(recurred = k, elapsed = (k - 1) * %s at run k) but the frame was left at run number %r\n%s"
+                 % (P, t0, line_of(cond), exp, P, got, text))]
+    return []
